@@ -256,6 +256,8 @@ check("C16", "a replica refuses client writes but keeps applying replicated ones
        "6 request shapes, preemption bound 0 (Begin's worker goroutine)", q={"preempt": 0}, no_validate=True),
     ob("VerifC16_NodeInfoTruthful", "pkg/grpc/service", "GetNodeInfo through the real replication.Manager and the service handler: role, primary address and read-only status truthful for standalone/primary/replica and both flag values, also after the flag changes; the reported status is the enforced one",
        "4 role configurations x 2 rounds x 2 flag values"),
+    ob("VerifC16_ApplierVsClientWrite", "pkg/replication", "the replica's real apply path (replication.EngineApplier.Apply on the real EngineFacade in read-only mode; whichever engine entry points the applier finds and uses) applies one replicated put, delete or merge while a client tries a put, a delete of the replicated key or a read-write transaction and asks for the read-only status: the client write is refused, its key never appears, read-only is reported throughout, the replicated entry takes effect",
+       "3 entry types x 3 client shapes, 2 threads, preemption bound 1", "preemption bound 2", q=P1, t=P2, no_validate=True),
     ob("VerifC16_ApplyVsClientWrite", "pkg/engine", "a replicated operation applied through PutInternal / DeleteInternal / ApplyBatchInternal concurrently with a client put / delete / batch / read-write transaction and a status query: the client write is refused, its key never appears, the replicated operation takes effect, read-only is reported throughout, no lock left held",
        "3 apply shapes x 4 client shapes, preemption bound 1", "preemption bound 2", q=P1, t=P2, no_validate=True),
 ], [SIMFS, CLOCK, HASH, BLOOM, JSON, LOG, TIERA, "entry points are hand-listed in the harnesses; the method sets of EngineFacade, interfaces.Engine and pb.KevoServiceServer are compared with the listed ones on every run, a new method is reported as not covered"],
